@@ -51,6 +51,7 @@ def run_machine(env, p):
     w.cleanup_count = {}
     w.requests = []     # chronological start/stop requests: ('start', name, tag, clid) | ('stop',)
     w.raised_in_run = set()
+    w.no_cleanup = set()
     K = 'C14'
 
     def behaviour(sm, name):
@@ -110,7 +111,12 @@ def run_machine(env, p):
     def request_start(sm, name):
         w.nstart += 1
         tag = w.nstart
-        sm.start(states[name], tag=tag, cleanup=make_cleanup(tag))
+        # a start may come without a cleanup function: then no cleanup at all belongs to that run
+        if env.choice(f'withcleanup{tag}', 2) if tag <= 2 else 1:
+            sm.start(states[name], tag=tag, cleanup=make_cleanup(tag))
+        else:
+            w.no_cleanup.add(tag)
+            sm.start(states[name], tag=tag)
         w.requests.append(('start', name, tag))
         w.events.append(('REQ', 'start', name, tag))
 
@@ -193,6 +199,8 @@ def check_log(env, w, sm, K):
         if last_code in ('retry', 'start-inside', 'stop-inside', 'gotoA', 'gotoB'):
             # the run did not end by itself: something (request or loop limit) ended it -> cleanup
             interrupted = True
+        if tag in w.no_cleanup:
+            continue
         if interrupted:
             env.check(w.cleanup_count.get(tag, 0) == 1, K + '/interrupted-run-without-cleanup', [tag, [x for x in ev if x[0] != 'T']])
         else:
